@@ -37,17 +37,21 @@ import (
 )
 
 type Op struct {
-	K    string `json:"k"` // new | enq | set | firetick | runtick | park | firettl
+	K    string `json:"k"` // new | enq | set | firetick | runtick | park | firettl | probe
 	ID   int    `json:"id,omitempty"`
 	Prio int    `json:"prio,omitempty"`
 	TTL  int64  `json:"ttl_ns,omitempty"`
 	Hold bool   `json:"hold,omitempty"` // enq: stop at dpq.unlocked; firetick: stop at dpq.tick_before_lock
 	To   int64  `json:"to_ns,omitempty"`
+	// probe (suite atomic): Enqueue of ID as "enq"; when it stands on the trace
+	// line logged between its admission decision and its push, the Inner
+	// operations are started one by one (see atomic.go)
+	Inner []Op `json:"inner,omitempty"`
 }
 
 // Act is one atomic action of the model (theories/C10/Model.v, [action]).
 type Act struct {
-	K    string `json:"k"` // EnqLocked | Park | Tick | Ttl | Return
+	K    string `json:"k"` // EnqLocked | Park | Tick | Ttl | Return | Decide | Push (the last two: suite atomic, Split.v)
 	ID   int    `json:"id,omitempty"`
 	Prio int    `json:"prio,omitempty"`
 	Ts   int64  `json:"ts_ns,omitempty"`
@@ -75,6 +79,11 @@ type Ev struct {
 	Unparked  []int  `json:"unparked,omitempty"`  // pass: waiters held between Unlock and select during the pass
 	TickHeld  bool   `json:"tick_held,omitempty"` // arrive: the woken roll-over goroutine was held before its Lock
 	NextTick  int64  `json:"next_tick_ns,omitempty"`
+	// arrive of a probed request: operations (other arrivals, roll-over passes) that
+	// COMPLETED while it stood between its admission decision and its push, and
+	// whether a roll-over pass was among them
+	RanInside  int  `json:"ran_inside,omitempty"`
+	PassInside bool `json:"pass_inside,omitempty"`
 	Count     int64  `json:"count"` // sum of Counts() after the operation
 }
 
@@ -84,6 +93,7 @@ type Case struct {
 	QSize  int64 `json:"queue_size"`
 	T0     int64 `json:"t0_ns"`
 	Plugin bool  `json:"plugin,omitempty"`
+	Trace  bool  `json:"trace,omitempty"` // suite atomic: the queue logs at trace level into the harness's writer
 	Ops    []Op  `json:"ops"`
 
 	QueueT0 int64    `json:"queue_t0_ns"` // clock reading when the queue was constructed
@@ -91,6 +101,7 @@ type Case struct {
 	Counts  []*int64 `json:"counts"`
 	Results []Res    `json:"results"`
 	Events  []Ev     `json:"events"`
+	Probes  []Probe  `json:"probes,omitempty"`
 }
 
 type waiter struct {
@@ -101,6 +112,10 @@ type waiter struct {
 	gid      int64
 	atYield  bool
 	release  chan struct{}
+	probe    bool          // stop on the trace line between decision and push
+	atLog    bool          // standing there
+	logGo    chan struct{} // closed to let it go on
+	blocked  bool          // seen waiting for dpq.mutex while another request stands on that line
 	armed    *timer
 	started  bool
 	done     bool
@@ -133,6 +148,9 @@ type runner struct {
 	tickRelease chan struct{}
 	tickExited  bool
 	dead        bool
+
+	probing     *waiter // the request standing between its decision and its push
+	tickBlocked bool    // the woken roll-over goroutine was seen waiting for dpq.mutex meanwhile
 
 	firstAct int // index of the first action emitted by the current op
 }
@@ -198,11 +216,11 @@ func newRunner(k *Case) *runner {
 	x := &runner{k: k, ws: map[int]*waiter{}, byGid: map[int64]*waiter{}}
 	x.clk = &ctlClock{now: k.T0}
 	x.clk.onAfter = x.onAfter
-	k.Actions, k.Counts, k.Results, k.Events = nil, nil, nil, nil
+	k.Actions, k.Counts, k.Results, k.Events, k.Probes = nil, nil, nil, nil, nil
 	k.QueueT0 = k.T0
 	cur.Store(x)
 	mk := func(key queue.QueueKey) *queue.DelayedPriorityQueue {
-		q := queue.NewInMemoryDelayedPriorityQueue(key, x.clk, logging.ContextLogger{})
+		q := queue.NewInMemoryDelayedPriorityQueue(key, x.clk, x.logger())
 		x.mu.Lock()
 		x.dpq = q
 		x.queueMade = true
@@ -247,6 +265,8 @@ func (x *runner) stable() bool {
 		state string
 	}
 	var needs []need
+	var lockW []*waiter
+	lockT := false
 	x.mu.Lock()
 	ok := true
 	for _, id := range x.order {
@@ -257,9 +277,13 @@ func (x *runner) stable() bool {
 		switch {
 		case w.gid == 0:
 			ok = false
-		case w.atYield:
+		case w.atYield, w.atLog:
 		case w.armed != nil && !w.armed.fired:
 			needs = append(needs, need{w.gid, "select"})
+		case x.probing != nil && !w.probe:
+			// may only be waiting for dpq.mutex, which the probed request keeps
+			needs = append(needs, need{w.gid, lockWait})
+			lockW = append(lockW, w)
 		default:
 			ok = false
 		}
@@ -271,6 +295,9 @@ func (x *runner) stable() bool {
 			ok = false
 		case x.tickTimer != nil && !x.tickTimer.fired && x.tickGid != 0:
 			needs = append(needs, need{x.tickGid, "chan receive"})
+		case x.probing != nil && x.tickGid != 0:
+			needs = append(needs, need{x.tickGid, lockWait})
+			lockT = true
 		default:
 			ok = false
 		}
@@ -279,20 +306,65 @@ func (x *runner) stable() bool {
 	if !ok {
 		return false
 	}
-	st := gstates()
-	for _, n := range needs {
-		if st[n.gid] != n.state {
-			return false
+	if len(lockW) > 0 || lockT {
+		st := gstacks()
+		for _, n := range needs {
+			g := st[n.gid]
+			if n.state == lockWait {
+				if !waitsForQueueMutex(g) {
+					return false
+				}
+			} else if g.state != n.state {
+				return false
+			}
+		}
+	} else {
+		st := gstates()
+		for _, n := range needs {
+			if st[n.gid] != n.state {
+				return false
+			}
 		}
 	}
+	x.mu.Lock()
+	for _, id := range x.order {
+		x.ws[id].blocked = false
+	}
+	for _, w := range lockW {
+		w.blocked = true
+	}
+	x.tickBlocked = lockT
+	x.mu.Unlock()
 	return true
+}
+
+func (x *runner) anyBlocked() bool {
+	x.mu.Lock()
+	defer x.mu.Unlock()
+	if x.tickBlocked {
+		return true
+	}
+	for _, id := range x.order {
+		if x.ws[id].blocked {
+			return true
+		}
+	}
+	return false
 }
 
 func (x *runner) settle() {
 	deadline := time.Now().Add(20 * time.Second)
 	for i := 0; ; i++ {
 		if x.stable() {
-			return
+			// a goroutine seen waiting for the mutex must still be there a moment
+			// later (it could have been between two lock attempts)
+			if !x.anyBlocked() {
+				return
+			}
+			time.Sleep(200 * time.Microsecond)
+			if x.stable() {
+				return
+			}
 		}
 		if i < 200 {
 			runtime.Gosched()
@@ -374,73 +446,21 @@ func (x *runner) do(op Op) bool {
 		return true
 
 	case "enq":
-		w := x.ws[op.ID]
-		if x.k.Plugin {
-			if w != nil {
-				return false
-			}
-			w = &waiter{id: op.ID, prio: op.Prio, ts: now}
-			x.ws[op.ID] = w
-			x.order = append(x.order, op.ID)
-		}
-		if w == nil || w.started {
+		w := x.startEnq(op, now)
+		if w == nil {
 			return false
 		}
-		w.ttl, w.hold, w.release, w.started = op.TTL, op.Hold, make(chan struct{}), true
-		x.enqOrder = append(x.enqOrder, w.id)
 		x.mu.Lock()
 		tickHeld := x.tickAtYield
 		x.mu.Unlock()
-		go func() {
-			gid := curGID()
-			x.mu.Lock()
-			w.gid = gid
-			x.byGid[gid] = w
-			x.mu.Unlock()
-			var res bool
-			if x.k.Plugin {
-				rem := *x.remedy.Remedy
-				cfgCopy := *rem.Config.StrategyBasedQueue
-				cfgCopy.TTLSeconds = float32(w.ttl / int64(time.Second))
-				rem.Config.StrategyBasedQueue = &cfgCopy
-				sr := x.remedy
-				sr.Remedy = &rem
-				act, err := x.plugin.OnRequest(messages.OnRequest{
-					ID: strconv.Itoa(w.id), Headers: map[string]string{"x-group": "g" + strconv.Itoa(w.prio)},
-				}, sr)
-				_, noop := act.(*actions.NoOpAction)
-				res = noop && err == nil
-			} else {
-				res, _ = x.dpq.Enqueue(w.req, time.Duration(w.ttl), x.k.QSize)
-			}
-			at := x.clk.nowNs()
-			x.mu.Lock()
-			w.done, w.result, w.retAt = true, res, at
-			x.mu.Unlock()
-		}()
 		x.settle()
-		x.emit(Act{K: "EnqLocked", ID: w.id, Prio: w.prio, Ts: w.ts, TTL: w.ttl, Now: now})
-		x.mu.Lock()
-		done, armed := w.done, w.armed != nil
-		x.mu.Unlock()
-		ev := Ev{K: "arrive", ID: w.id, Prio: w.prio, Ts: w.ts, TTL: w.ttl, At: now, TickHeld: tickHeld}
-		if done {
-			w.reported = true
-			ev.Immediate, ev.Result = true, w.result
-			x.k.Events = append(x.k.Events, ev)
-		} else {
-			w.queued = true
-			x.k.Events = append(x.k.Events, ev)
-			if armed && op.Hold {
-				panic("C10 harness: a waiter asked to stop at verifhook.Yield(\"dpq.unlocked\") reached its select: " +
-					"patches/C10/hook-dpq-yield.patch is not applied to the tree under test (" + os.Getenv("VERIF_REPO") + ")")
-			}
-			if armed {
-				w.parkedEv = true
-				x.emit(Act{K: "Park", ID: w.id, Now: now})
-				x.k.Events = append(x.k.Events, Ev{K: "parked", ID: w.id, At: now})
-			}
+		x.finishEnq(w, op.Hold, tickHeld, "EnqLocked")
+
+	case "probe":
+		if !x.doProbe(op, now, evFrom) {
+			return false
 		}
+		return true
 
 	case "set":
 		if op.To < now {
@@ -518,6 +538,91 @@ func (x *runner) do(op Op) bool {
 	}
 	x.endOp(evFrom)
 	return true
+}
+
+// startEnq starts the Enqueue call of op.ID in its own goroutine (nil = not enabled).
+func (x *runner) startEnq(op Op, now int64) *waiter {
+	w := x.ws[op.ID]
+	if x.k.Plugin {
+		if w != nil {
+			return nil
+		}
+		w = &waiter{id: op.ID, prio: op.Prio, ts: now}
+		x.ws[op.ID] = w
+		x.order = append(x.order, op.ID)
+	}
+	if w == nil || w.started {
+		return nil
+	}
+	w.ttl, w.hold, w.release, w.started = op.TTL, op.Hold, make(chan struct{}), true
+	if op.K == "probe" {
+		w.probe, w.logGo = true, make(chan struct{})
+	}
+	x.enqOrder = append(x.enqOrder, w.id)
+	go func() {
+		gid := curGID()
+		x.mu.Lock()
+		w.gid = gid
+		x.byGid[gid] = w
+		x.mu.Unlock()
+		var res bool
+		if x.k.Plugin {
+			rem := *x.remedy.Remedy
+			cfgCopy := *rem.Config.StrategyBasedQueue
+			cfgCopy.TTLSeconds = float32(w.ttl / int64(time.Second))
+			rem.Config.StrategyBasedQueue = &cfgCopy
+			sr := x.remedy
+			sr.Remedy = &rem
+			act, err := x.plugin.OnRequest(messages.OnRequest{
+				ID: strconv.Itoa(w.id), Headers: map[string]string{"x-group": "g" + strconv.Itoa(w.prio)},
+			}, sr)
+			_, noop := act.(*actions.NoOpAction)
+			res = noop && err == nil
+		} else {
+			res, _ = x.dpq.Enqueue(w.req, time.Duration(w.ttl), x.k.QSize)
+		}
+		at := x.clk.nowNs()
+		x.mu.Lock()
+		w.done, w.result, w.retAt = true, res, at
+		x.mu.Unlock()
+	}()
+	return w
+}
+
+// finishEnq records what a quiescent Enqueue call amounted to: the action
+// (kind = "EnqLocked", or "Push" for a probed request whose "Decide" has been
+// emitted), the arrive event and, if it reached its select, the Park.
+// The clock reading is the current one (the clock is moved by the harness only).
+func (x *runner) finishEnq(w *waiter, hold, tickHeld bool, kind string) *Ev {
+	now := x.clk.nowNs()
+	if kind == "Push" {
+		x.emit(Act{K: "Push", ID: w.id})
+	} else {
+		x.emit(Act{K: kind, ID: w.id, Prio: w.prio, Ts: w.ts, TTL: w.ttl, Now: now})
+	}
+	x.mu.Lock()
+	done, armed := w.done, w.armed != nil
+	x.mu.Unlock()
+	ev := Ev{K: "arrive", ID: w.id, Prio: w.prio, Ts: w.ts, TTL: w.ttl, At: now, TickHeld: tickHeld}
+	if done {
+		w.reported = true
+		ev.Immediate, ev.Result = true, w.result
+		x.k.Events = append(x.k.Events, ev)
+		return &x.k.Events[len(x.k.Events)-1]
+	}
+	w.queued = true
+	x.k.Events = append(x.k.Events, ev)
+	at := len(x.k.Events) - 1
+	if armed && hold {
+		panic("C10 harness: a waiter asked to stop at verifhook.Yield(\"dpq.unlocked\") reached its select: " +
+			"patches/C10/hook-dpq-yield.patch is not applied to the tree under test (" + os.Getenv("VERIF_REPO") + ")")
+	}
+	if armed {
+		w.parkedEv = true
+		x.emit(Act{K: "Park", ID: w.id, Now: now})
+		x.k.Events = append(x.k.Events, Ev{K: "parked", ID: w.id, At: now})
+	}
+	return &x.k.Events[at]
 }
 
 // pass records a completed processing pass of the roll-over goroutine.
